@@ -364,7 +364,7 @@ class _Audit(object):
                     w = any(c in mode for c in "wax+")
                 elif flags is not None:
                     w = bool(flags & (os.O_WRONLY | os.O_RDWR | os.O_CREAT | os.O_TRUNC | os.O_APPEND))
-                if w:
+                if w and not getattr(self, "in_wrapper", False):
                     self.events.append({"ev": "OpenW", "path": os.path.abspath(os.fsdecode(path))})
             elif event in MUTATING_OS:
                 idxs = MUTATING_OS[event]
@@ -392,7 +392,11 @@ class _WFile(object):
     def write(self, data):
         AUDIT.points += 1
         AUDIT.point_log.append(("write", self._p))
-        if AUDIT.fault_at is not None and AUDIT.points == AUDIT.fault_at:
+        hit = (AUDIT.fault_at is not None and AUDIT.points == AUDIT.fault_at) or \
+            os.path.abspath(self._p) in AUDIT.dead
+        AUDIT.events.append({"ev": "WP", "what": "write", "path": os.path.abspath(self._p), "faulted": hit})
+        if hit:
+            AUDIT.dead.add(os.path.abspath(self._p))
             AUDIT.faulted = True
             raise FaultInjected(28, "No space left on device (injected at write)", self._p)
         return self._f.write(data)
@@ -416,10 +420,18 @@ def _open_wrapper(file, mode="r", *a, **kw):
             and not isinstance(file, int):
         AUDIT.points += 1
         AUDIT.point_log.append(("open", os.fsdecode(file)))
-        if AUDIT.fault_at is not None and AUDIT.points == AUDIT.fault_at:
+        hit = (AUDIT.fault_at is not None and AUDIT.points == AUDIT.fault_at) or \
+            os.path.abspath(os.fsdecode(file)) in AUDIT.dead
+        AUDIT.events.append({"ev": "WP", "what": "open", "path": os.path.abspath(os.fsdecode(file)), "faulted": hit})
+        if hit:
+            AUDIT.dead.add(os.path.abspath(os.fsdecode(file)))
             AUDIT.faulted = True
             raise FaultInjected(28, "No space left on device (injected at open)", os.fsdecode(file))
-        f = _REAL_OPEN(file, mode, *a, **kw)
+        AUDIT.in_wrapper = True
+        try:
+            f = _REAL_OPEN(file, mode, *a, **kw)
+        finally:
+            AUDIT.in_wrapper = False
         if AUDIT.fault_at is not None or AUDIT.count_writes:
             return _WFile(f, os.fsdecode(file))
         return f
@@ -427,6 +439,7 @@ def _open_wrapper(file, mode="r", *a, **kw):
 
 
 AUDIT.count_writes = False
+AUDIT.dead = set()
 
 
 class fs_audit(object):
@@ -447,6 +460,7 @@ class fs_audit(object):
         AUDIT.points = 0
         AUDIT.point_log = []
         AUDIT.faulted = False
+        AUDIT.dead = set()
         AUDIT.fault_at = self.fault_at
         AUDIT.count_writes = self.count
         if self.fault_at is not None or self.count:
